@@ -65,15 +65,15 @@ type SStruct struct {
 
 // Def is one definition file = one package of the farm.
 type Def struct {
-	Gen     string    `json:"gen"` // gsort|genum|gerror
-	Pkg     string    `json:"pkg"`
-	Types   []string  `json:"types"` // the -types argument, in this order
-	Opts    []string  `json:"opts"`  // further CLI flags
-	Source  string    `json:"source"`
-	Structs []SStruct `json:"structs,omitempty"` // gsort only, in -types order
-	Counts  map[string]int `json:"counts"`       // how many of each map-kept thing the definition has
-	Enums   []EnumInfo `json:"enums,omitempty"`  // genum only
-	Errors  []ErrInfo  `json:"errors,omitempty"` // gerror only
+	Gen     string         `json:"gen"` // gsort|genum|gerror
+	Pkg     string         `json:"pkg"`
+	Types   []string       `json:"types"` // the -types argument, in this order
+	Opts    []string       `json:"opts"`  // further CLI flags
+	Source  string         `json:"source"`
+	Structs []SStruct      `json:"structs,omitempty"` // gsort only, in -types order
+	Counts  map[string]int `json:"counts"`            // how many of each map-kept thing the definition has
+	Enums   []EnumInfo     `json:"enums,omitempty"`   // genum only
+	Errors  []ErrInfo      `json:"errors,omitempty"`  // gerror only
 }
 
 // EnumValue / EnumInfo: what the judge needs to know about a genum definition.
@@ -336,6 +336,73 @@ func genumDef(r *rand.Rand, n int) Def {
 	return d
 }
 
+// genumParsableDef: one enum whose traits are all parsable and come in groups of 2-5 distinct
+// named types per underlying kind (string, signed, unsigned, float) — the generator keeps the
+// castable parsable traits per kind in collections of their own (GetParsableUnderlying*For*).
+func genumParsableDef(r *rand.Rand, n int) Def {
+	d := Def{Gen: "genum", Pkg: fmt.Sprintf("gp%d", n), Counts: map[string]int{}}
+	name := fmt.Sprintf("Region%d", n)
+	type tr struct {
+		typ, under, kind string
+	}
+	var trs []tr
+	add := func(kind string, unders []string, words []string, k int) {
+		words = shuffled(r, words)
+		for i := 0; i < k; i++ {
+			trs = append(trs, tr{fmt.Sprintf("%s%d", words[i], n), unders[r.IntN(len(unders))], kind})
+		}
+		d.Counts["parsable_"+kind+"_types"] += k
+	}
+	add("string", []string{"string"}, []string{"Code", "Alias", "Zone", "Label", "Key"}, 3+r.IntN(3))
+	add("signed", []string{"int", "int32", "int64", "int16"}, []string{"LegacyID", "Rank", "Seq", "Ord"}, 2+r.IntN(3))
+	if r.IntN(2) == 0 {
+		add("unsigned", []string{"uint", "uint16", "uint32", "uint64"}, []string{"Mask", "Port", "Slot"}, 2+r.IntN(2))
+	}
+	if r.IntN(2) == 0 {
+		add("float", []string{"float64"}, []string{"Weight", "Ratio", "Gain"}, 2+r.IntN(2))
+	}
+	trs = shuffled(r, trs)
+	var b strings.Builder
+	fmt.Fprintf(&b, "//nolint:all // farm definition\npackage %s\n\n// trait types.\ntype (\n", d.Pkg)
+	for _, t := range trs {
+		fmt.Fprintf(&b, "\t%s %s\n", t.typ, t.under)
+	}
+	fmt.Fprintf(&b, ")\n\n// %s can be parsed from any of its traits.\ntype %s int\n\n// Values of %s.\nconst (\n", name, name, name)
+	nv := 3 + r.IntN(3)
+	info := EnumInfo{Type: name}
+	var parsable []string
+	for i := 0; i < nv; i++ {
+		lhs := []string{fmt.Sprintf("%sV%d", name, i)}
+		rhs := []string{fmt.Sprintf("%s(%d)", name, i)}
+		info.Values = append(info.Values, EnumValue{Name: lhs[0], Value: int64(i)})
+		for j, t := range trs {
+			if i == 0 {
+				lhs = append(lhs, "_"+t.typ+"Of"+name)
+				info.Traits = append(info.Traits, t.typ+"Of"+name)
+				parsable = append(parsable, t.typ+"Of"+name)
+			} else {
+				lhs = append(lhs, "_")
+			}
+			switch t.kind {
+			case "string":
+				rhs = append(rhs, fmt.Sprintf("%s(%q)", t.typ, fmt.Sprintf("%s-%d", strings.ToLower(t.typ), i)))
+			case "float":
+				rhs = append(rhs, fmt.Sprintf("%s(%d.5)", t.typ, 10*j+i))
+			default:
+				rhs = append(rhs, fmt.Sprintf("%s(%d)", t.typ, 10*j+i+1))
+			}
+		}
+		fmt.Fprintf(&b, "\t%s = %s\n", strings.Join(lhs, ", "), strings.Join(rhs, ", "))
+	}
+	b.WriteString(")\n")
+	d.Types = []string{name}
+	d.Enums = []EnumInfo{info}
+	d.Opts = []string{"-parsableByTraits=" + strings.Join(shuffled(r, parsable), ",")}
+	d.Counts["types"], d.Counts["traits"], d.Counts["values"] = 1, len(trs), nv
+	d.Source = b.String()
+	return d
+}
+
 func gerrorDef(r *rand.Rand, n int) Def {
 	d := Def{Gen: "gerror", Pkg: fmt.Sprintf("gr%d", n), Counts: map[string]int{}}
 	nt := 2 + r.IntN(2)
@@ -507,10 +574,10 @@ func runCmd(dir string, env []string, name string, args ...string) (int, string)
 // ---------------------------------------------------------------- main
 
 type jcase struct {
-	Kind    string   `json:"kind"`
-	Def     Def      `json:"def"`
-	Obs     []obs    `json:"obs"`
-	Outputs []string `json:"outputs"` // the distinct outputs seen (first two kept in full)
+	Kind    string      `json:"kind"`
+	Def     Def         `json:"def"`
+	Obs     []obs       `json:"obs"`
+	Outputs []string    `json:"outputs"`          // the distinct outputs seen (first two kept in full)
 	Blocks  [][2]string `json:"blocks,omitempty"` // gsort: (sorter, type) per block of the output, file order
 	// genum: per trait method and per _XValues list the value names in file order;
 	// genum: per enum the trait method names in file order; gerror: per Error() / toPrimaryType the field names
@@ -628,7 +695,7 @@ func main() {
 		for i := 0; i < *n; i++ {
 			// all three are always drawn (so that a definition depends on the seed and its index
 			// only), the -only filter drops the unwanted ones
-			for _, d := range []Def{gsortDef(r, i), genumDef(r, i), gerrorDef(r, i)} {
+			for _, d := range []Def{gsortDef(r, i), genumDef(r, i), gerrorDef(r, i), genumParsableDef(r, i)} {
 				if strings.Contains(","+*only+",", ","+d.Gen+",") {
 					defs = append(defs, d)
 				}
